@@ -26,7 +26,7 @@ def gen_cases(ck):
                       "mobius": bool(ck.rng.integers(3) == 0), "kmin": 1, "kmax": 4, "angle": float(ck.rng.uniform(0, 6.28)),
                       "scale": float(10.0 ** ck.rng.uniform(-1, 2)), "shift": [float(ck.rng.normal() * 5), float(ck.rng.normal() * 5)],
                       "nframes": int(ck.rng.integers(2, 7)), "field": ["random", "affine", "flow"][int(ck.rng.integers(3))],
-                      "bound_factor": 0.4, "renumber": [True, "dense"][i % 2], "cm": False, "times": ["equal", "unequal", "unequal"][int(ck.rng.integers(3))],
+                      "bound_factor": 0.4, "renumber": [True, "dense"][i % 2], "cm": False, "times": ["equal", "unequal", "unequal", "from_zero", "through_zero"][int(ck.rng.integers(5))],
                       "b_matrix": ["velocity", "velocity", None][int(ck.rng.integers(3))], "adimensional": bool(ck.rng.integers(2)),
                       "vnorm": float(ck.rng.choice([1.0, 1.0, 0.1, 7.5, 0.0, -2.0])), "drop_vertex": bool(ck.rng.integers(3) == 0)})
     return cases
@@ -38,6 +38,9 @@ def run_case(ck, case, reqs, pending):
     if s is None:
         ck.count("rejected_tissue"); return
     n = case["nframes"]
+    ck.count("time_stamps_" + str(case.get("times")))
+    if 0.0 in s.times and case.get("times") != "equal":
+        ck.count("time_stamp_exactly_zero_with_unequal_steps")
     rng = np.random.default_rng(case["seed"] + 4)
     frames = {}
     for t, sc in enumerate(s.frames_sc):
